@@ -7,9 +7,9 @@
 (* forms, and the integral scale can be prescribed instead of the length   *)
 (* scale.                                                                  *)
 (*                                                                         *)
-(* Four independent parts share this module; a configuration selects one   *)
-(* through INIT/NEXT (InitGraph/NextGraph, InitVariant, InitPoly,          *)
-(* InitInt).  Variables of the other parts are pinned to None.             *)
+(* Six independent parts share this module; a configuration selects one    *)
+(* through INIT/NEXT (InitGraph/NextGraph, InitVariant, InitPoly, InitInt, *)
+(* InitHist/NextHist, InitTpl).  Variables of the other parts are None.    *)
 (*                                                                         *)
 (*  A  derivation graph: which function a class gets for each of the four  *)
 (*     names given the subset D it defines itself; evaluation must         *)
@@ -19,6 +19,10 @@
 (*  C  PolyCor: the documented closed forms of the polynomial / rational   *)
 (*     models evaluated with exact rationals on lags k/8 * len_scale.      *)
 (*  D  prescribing the integral scale (scalar and list forms).             *)
+(*  E  the integral scale along a history of assignments on one object     *)
+(*     (len_scale, rescale, shape parameter, dim, integral_scale).         *)
+(*  F  the truncated-power-law superposition (lower truncation, rescale):  *)
+(*     exact weights of the documented two-mode closed form, mode bounds.  *)
 (*                                                                         *)
 (* Lengths in part B are integers in units of len_scale/16 ("u"); the grid *)
 (* lag k/8 * len_scale is u = 2k.  Anisotropy ratios are powers of two     *)
@@ -461,16 +465,21 @@ Ones(n) == [i \in 1..n |-> One]
 FitAnis(d, s) == LET t == Take(s, d - 1) IN Ones(d - 1 - Len(t)) \o t   \* cut right, pad left with 1
 InitAnis(d) == [i \in 1..d - 1 |-> IF i = 1 THEN <<2, 1>> ELSE <<1, 2>>]
 
+(* the observables: integral_scale = intq * kappa(opt) / kappa(len.o), and per direction *)
+HIntQ(s) == Div(s.len.q, s.res)
+HVec(s)  == [i \in 1..s.dim |-> IF i = 1 THEN HIntQ(s) ELSE Mul(HIntQ(s), s.anis[i - 1])]
+WithObs(s) == [s EXCEPT !.intq = HIntQ(s), !.vec = HVec(s)]
+
 InitHist ==
   /\ part = "inthist"
   /\ \E d \in HistDims, l \in HistLens, r \in HistRes :
-       isc = [dim |-> d, len |-> [q |-> l, o |-> 0], res |-> r, anis |-> InitAnis(d), opt |-> 1,
-              n |-> 0, op |-> HOp("Init", <<>>)]
+       isc = WithObs([dim |-> d, len |-> [q |-> l, o |-> 0], res |-> r, anis |-> InitAnis(d), opt |-> 1,
+                      n |-> 0, op |-> HOp("Init", <<>>), intq |-> Zero, vec |-> <<>>])
   /\ D = None /\ inst = None /\ pc = None /\ abstract = None /\ ev = None
   /\ vc = None /\ pm = None /\ tab = None
 
 HStep(new) == /\ isc.n < HistMaxSteps
-              /\ isc' = [new EXCEPT !.n = isc.n + 1]
+              /\ isc' = WithObs([new EXCEPT !.n = isc.n + 1])
               /\ UNCHANGED <<part, D, inst, pc, abstract, ev, vc, pm, tab>>
 
 HSetLen(l) == l # isc.len.q /\ HStep([isc EXCEPT !.len = [q |-> l, o |-> 0], !.op = HOp("SetLen", <<l>>)])
@@ -490,12 +499,10 @@ NextHist ==
   \/ \E d \in HistDims : HSetDim(d)
   \/ \E I \in HistInts : HSetInt(I)
 
-HIntQ(s) == Div(s.len.q, s.res)
-HVec(s)  == [i \in 1..s.dim |-> IF i = 1 THEN HIntQ(s) ELSE Mul(HIntQ(s), s.anis[i - 1])]
-
 HistTypeOK == /\ Len(isc.anis) = isc.dim - 1
               /\ IsQ(isc.len.q) /\ Less(Zero, isc.len.q) /\ Less(Zero, isc.res)
               /\ \A i \in 1..isc.dim - 1 : Less(Zero, isc.anis[i])
+              /\ isc.intq = HIntQ(isc) /\ isc.vec = HVec(isc) /\ Len(isc.vec) = isc.dim
 (* right after prescribing I the integral scale is I, exactly, in every direction named *)
 HistPrescribed == isc.op.name = "SetInt" =>
   /\ isc.len.o = isc.opt /\ HIntQ(isc) = isc.op.v[1]
